@@ -87,6 +87,9 @@ pub enum FOp {
     },
     Destructure { shape: u8 },
     HDrop { t: usize },
+    /// `dst.clone_from(&src)` on two consumers / two builders of the same N
+    CCloneFrom { o: usize, c: usize },
+    BCloneFrom { o: usize, c: usize },
     /// self-contained: ArrayConsumer<u32,N>/ArrayBuilder<u32,N>::copy() futures
     CopyScenario { n: usize, front: usize, back: usize },
     /// self-contained: zero-sized Drop element, counts only
@@ -131,6 +134,8 @@ impl FOp {
             CopyScenario { .. } => 30,
             ZstScenario { .. } => 31,
             BigScenario { .. } => 32,
+            CCloneFrom { .. } => 33,
+            BCloneFrom { .. } => 34,
         }
     }
 }
@@ -243,6 +248,30 @@ impl Model {
     }
     pub fn count(&self, kind: Kind) -> usize {
         self.objs.iter().filter(|x| matches!((x, kind), (Some(MObj::Arr(..)), Kind::Arr) | (Some(MObj::Cons(..)), Kind::Cons) | (Some(MObj::Build(..)), Kind::Build))).count()
+    }
+    /// another live object of the same kind and N as slot `d` (chosen by `c`)
+    pub fn clone_from_source(&self, kind: Kind, d: usize, c: usize) -> Option<usize> {
+        let n = match self.objs[d].as_ref()? {
+            MObj::Cons(n, _) | MObj::Build(n, _) | MObj::Arr(n, _) => *n,
+        };
+        let cands: Vec<usize> = self
+            .objs
+            .iter()
+            .enumerate()
+            .filter(|(i, x)| {
+                *i != d
+                    && match (x, kind) {
+                        (Some(MObj::Cons(m, _)), Kind::Cons) | (Some(MObj::Build(m, _)), Kind::Build) => *m == n,
+                        _ => false,
+                    }
+            })
+            .map(|(i, _)| i)
+            .collect();
+        if cands.is_empty() {
+            None
+        } else {
+            Some(cands[c % cands.len()])
+        }
     }
     fn room(&self) -> bool {
         self.live_objs() < OBJ_CAP && self.next_id < ID_CAP
@@ -563,6 +592,33 @@ impl Model {
                 self.exp[id as usize] = (1, 1);
                 Exp::Unit
             }
+            CCloneFrom { o, c } | BCloneFrom { o, c } => {
+                let kind = if matches!(op, CCloneFrom { .. }) { Kind::Cons } else { Kind::Build };
+                let Some(d) = self.resolve(kind, *o) else { return Exp::Skip };
+                let Some(s2) = self.clone_from_source(kind, d, *c) else { return Exp::Skip };
+                if self.next_id + 40 > ID_CAP + 60 {
+                    return Exp::Skip;
+                }
+                let src: Vec<u32> = match self.objs[s2].as_ref() {
+                    Some(MObj::Cons(_, v)) => v.iter().copied().collect(),
+                    Some(MObj::Build(_, v)) => v.clone(),
+                    _ => unreachable!(),
+                };
+                let old: Vec<u32> = match self.objs[d].as_ref() {
+                    Some(MObj::Cons(_, v)) => v.iter().copied().collect(),
+                    Some(MObj::Build(_, v)) => v.clone(),
+                    _ => unreachable!(),
+                };
+                // the destination's previous contents are dropped, it then holds clones of the source
+                self.set(&old, (1, 1));
+                let ids = self.alloc(src.len(), (0, 0));
+                match self.objs[d].as_mut() {
+                    Some(MObj::Cons(_, v)) => *v = ids.iter().copied().collect(),
+                    Some(MObj::Build(_, v)) => *v = ids.clone(),
+                    _ => unreachable!(),
+                }
+                Exp::NewObj { ids, parents: Some(src) }
+            }
             CopyScenario { n, .. } | ZstScenario { n, .. } | BigScenario { n, .. } => {
                 if NS.contains(n) {
                     Exp::Unit
@@ -633,10 +689,11 @@ pub fn generate(rng: &mut Rng, cfg: &GenCfg) -> FCase {
                 0
             }
         };
-        let weights: [u32; 32] = [
+        let weights: [u32; 34] = [
             6, w_cons, 1, w_cons * 2, w_cons * 2, w_cons / 2 + 1, 1, w_cons / 2, 1, 2, w_cons / 2, w_misc, // 0..=11
             w_builder, w_builder * 3, w_builder / 2 + 1, 1, w_builder / 2, 1, w_builder, 1, w_builder / 3, w_misc, // 12..=21
             2, w_macro * 2, w_macro, w_macro, w_macro / 2, w_destr * 2, 3, w_misc, w_misc, w_misc, // 22..=31
+            w_cons / 3, w_builder / 3, // 32..=33 clone_from
         ];
         let op = match rng.weighted(&weights) {
             0 => FOp::NewArray { n },
@@ -670,6 +727,8 @@ pub fn generate(rng: &mut Rng, cfg: &GenCfg) -> FCase {
             28 => FOp::HDrop { t: rng.below(8) as usize },
             29 => FOp::CopyScenario { n, front: rng.below(5) as usize, back: rng.below(5) as usize },
             30 => FOp::ZstScenario { n, front: rng.below(5) as usize, back: rng.below(5) as usize, clone: rng.chance(1, 2) },
+            32 => FOp::CCloneFrom { o, c: rng.below(4) as usize },
+            33 => FOp::BCloneFrom { o, c: rng.below(4) as usize },
             _ => FOp::BigScenario { n, front: rng.below(5) as usize, back: rng.below(5) as usize, clone: rng.chance(1, 2) },
         };
         // armed fault indices are drawn relative to the real container size where known
